@@ -39,6 +39,8 @@ deriving Repr, Inhabited, DecidableEq
 structure Child where
   vs : Nat
   wait : CandWait := .notStarted
+  stage : Nat := 0
+  gate : Nat := 0                   -- id of the filter/sort gate the child is parked on (stages 1, 2)
   done : Bool := false
 deriving Repr, Inhabited
 
@@ -58,6 +60,9 @@ structure AS where
   listeners : List (Nat × Nat) := []         -- (package, task) in registration order
   gates : List (String × Nat) := []          -- outstanding requests: label ↦ task parked on it, oldest first
   opened : List String := []                 -- completed by the executor, not yet consumed by their future
+  fgates : List (String × Nat × Nat) := []   -- outstanding filter/sort calls: (label, task, gate id), oldest first
+  fopened : List Nat := []                   -- ids of completed filter/sort gates, not yet consumed
+  nextGate : Nat := 0
   nextId : Nat := 0
 deriving Inhabited
 
@@ -113,21 +118,66 @@ inductive TaskResult where
   | cons (sid : SoR) (vs : Nat) (l : List Nat)
 deriving Inhabited
 
+/-- a provider call that suspends on its own gate (`filter_candidates`, `sort_candidates` when they are asynchronous):
+    the first poll registers the gate (its id is returned), a later poll passes once the executor has completed it -/
+def pollGate (tid : Nat) (label : String) (entered : Bool) (gid : Nat) (a : AS) : Bool × Nat × AS :=
+  if !entered then (false, a.nextGate, { a with fgates := a.fgates ++ [(label, tid, a.nextGate)], nextGate := a.nextGate + 1 })
+  else if a.fopened.contains gid then (true, gid, { a with fopened := a.fopened.erase gid })
+  else (false, gid, a)
+
+/-- the child's result is stored in the cache of sorted candidates and the child is finished -/
+def finishChild (sorted : Bool) (c : Child) (a : AS) : M (Child × AS) := do
+  if sorted then modify fun s => if s.cachedSorted.contains c.vs then s else { s with cachedSorted := c.vs :: s.cachedSorted }
+  pure ({ c with done := true, wait := .ready }, a)
+
+/-- the harness's label of a `sort_candidates` call: the first solvable of the list to sort -/
+def sortLabel (U : Universe) (vs : Nat) : String := match U.candsOf vs with | f :: _ => s!"s{f}" | [] => "s-1"
+/-- the harness's label of a `filter_candidates` call -/
+def filterLabel (sorted : Bool) (vs : Nat) : String := if sorted then s!"f{vs}" else s!"f{vs}i"
+
+/-- stage 2: `sort_candidates` (suspends on its own gate when `gateFs`) -/
+def sortStage (U : Universe) (tid : Nat) (gateFs : Bool) (c : Child) (a : AS) (entered : Bool) : M (Child × AS) := do
+  if !gateFs then finishChild true c a
+  else
+    let (ok, gid, a') := pollGate tid (sortLabel U c.vs) entered c.gate a
+    if ok then finishChild true c a' else pure ({ c with stage := 2, gate := gid, wait := .ready }, a')
+
+/-- stage 1: `filter_candidates` (suspends on its own gate when `gateFs`), then the sort stage / the end -/
+def filterStage (U : Universe) (tid : Nat) (gateFs sorted : Bool) (c : Child) (a : AS) (entered : Bool) : M (Child × AS) := do
+  if !gateFs then (if sorted then sortStage U tid gateFs c a false else finishChild false c a)
+  else
+    let (ok, gid, a') := pollGate tid (filterLabel sorted c.vs) entered c.gate a
+    if ok then do
+      if sorted then
+        modify fun s => if s.cachedMatching.contains c.vs then s else { s with cachedMatching := c.vs :: s.cachedMatching }
+        sortStage U tid gateFs c a' false
+      else
+        modify fun s => if s.cachedInverse.contains c.vs then s else { s with cachedInverse := c.vs :: s.cachedInverse }
+        finishChild false c a'
+    else pure ({ c with stage := 1, gate := gid, wait := .ready }, a')
+
+/-- one poll of one child: `get_or_cache_sorted_candidates_for_version_set` / `get_or_cache_non_matching_candidates`.
+    Stages: 0 = `get_or_cache_candidates` (the only suspension point when filter and sort are synchronous),
+    1 = parked on the gate of `filter_candidates`, 2 = parked on the gate of `sort_candidates`. -/
+def pollChild (U : Universe) (tid : Nat) (sorted : Bool) (c : Child) (a : AS) : M (Child × AS) := do
+  if c.done then pure (c, a)
+  else do
+    let s ← get
+    if c.stage == 2 then sortStage U tid s.gateFs c a true
+    else if c.stage == 1 then filterStage U tid s.gateFs sorted c a true
+    else if sorted && s.cachedSorted.contains c.vs then pure ({ c with done := true, wait := .ready }, a)
+    else if !sorted && s.gateFs && s.cachedInverse.contains c.vs then pure ({ c with done := true, wait := .ready }, a)
+    else if sorted && s.gateFs && s.cachedMatching.contains c.vs then sortStage U tid s.gateFs c a false
+    else do
+      let (w, a') ← pollCands U tid (U.vsName c.vs) c.wait a
+      if w == .ready then filterStage U tid s.gateFs sorted { c with wait := .ready } a' false
+      else pure ({ c with wait := w }, a')
+
 /-- poll the children of a requirement / constraint future in order (`try_join_all`) -/
 def pollChildren (U : Universe) (tid : Nat) (sorted : Bool) : List Child → AS → M (List Child × AS)
   | [], a => pure ([], a)
   | c :: cs, a => do
-    let (c', a') ← (do
-      if c.done then pure (c, a)
-      else do
-        let s ← get
-        if sorted && s.cachedSorted.contains c.vs then pure ({ c with done := true, wait := .ready }, a)
-        else do
-          let (w, a') ← pollCands U tid (U.vsName c.vs) c.wait a
-          if w == .ready then do
-            if sorted then modify fun s => if s.cachedSorted.contains c.vs then s else { s with cachedSorted := c.vs :: s.cachedSorted }
-            pure ({ c with done := true, wait := .ready }, a')
-          else pure ({ c with wait := w }, a'))
+    let (c', a') ← pollChild U tid sorted c a
     let (cs', a'') ← pollChildren U tid sorted cs a'
     pure (c' :: cs', a'')
 
@@ -209,17 +259,26 @@ def encodeAsync (U : Universe) (P : Problem) (solvables : List SoR) (fuel : Nat)
         if a.tasks.all (·.finished) then pure ()
         else do
           -- quiescent: the executor records what is outstanding and completes the request the schedule names
-          let labels := (a.gates.map (·.1)).foldl (fun acc l => insertSorted l acc) []
+          -- (`<label>` = the oldest outstanding request with that label, `<label> <k>` = the k-th oldest)
+          let labels := (a.gates.map (·.1) ++ a.fgates.map (·.1)).foldl (fun acc l => insertSorted l acc) []
           modify fun s => { s with aevents := ("pending" ++ labels.foldl (fun acc l => acc ++ " " ++ l) "") :: s.aevents }
           let s ← get
           match s.sched with
           | [] => throw (.panic "DEADLOCK or schedule exhausted")
-          | l :: ls =>
+          | entry :: ls =>
+            let (l, k) : String × Nat := match entry.splitOn " " with
+              | [l, k] => (l, k.toNat?.getD 1)
+              | _ => (entry, 1)
             match a.gates.lookup l with
-            | none => throw (.panic s!"schedule names {l}, which is not outstanding")
             | some tid =>
-              set { s with sched := ls, aevents := s!"complete {l}" :: s.aevents }
+              set { s with sched := ls, aevents := s!"complete {entry}" :: s.aevents }
               loop fuel (enqueue { a with gates := a.gates.filter (fun g => g.1 != l), opened := l :: a.opened } tid)
+            | none =>
+              match (a.fgates.filter (fun g => g.1 == l))[k - 1]? with
+              | some (_, tid, gid) =>
+                set { s with sched := ls, aevents := s!"complete {entry}" :: s.aevents }
+                loop fuel (enqueue { a with fgates := a.fgates.filter (fun g => g.2.2 != gid), fopened := gid :: a.fopened } tid)
+              | none => throw (.panic s!"schedule names {entry}, which is not outstanding")
   loop fuel {}
   let s ← get
   pure s.conflicting
